@@ -26,7 +26,8 @@ def classify(name, err):
 # input classes with a recorded finding: skipped in the general conditions, checked in a condition of their own
 KNOWN_FEATURES = {"xml": ["xml-binds-reserved-prefix-xml"]}
 # reST body text that docutils reads as markup: only reachable with the docutils-active macro set (VERIF_RISKY)
-RISKY_FEATURES = {"rest": ["rest-literal-block-marker", "rest-text-line-above-underline-like-line", "rest-paragraph-starts-like-list-or-markup"]}
+RISKY_FEATURES = {"rest": ["rest-literal-block-marker", "rest-text-line-above-underline-like-line", "rest-paragraph-starts-like-list-or-markup",
+                           "rest-inline-markup-start-character"]}
 ALL_FEATURES = sum(KNOWN_FEATURES.values(), []) + sum(RISKY_FEATURES.values(), [])
 
 
